@@ -69,7 +69,7 @@ func pair(write bool, e int) []op {
 // script = programs + arrival order (a sequence of goroutine indices; the i-th occurrence of g
 // stands for the i-th operation of goroutine g).
 type script struct {
-	Mutex string // "starving" or "dag"
+	Mutex string // "starving", "starving_zero" (zero value instead of the constructor) or "dag"
 	Progs [][]op
 	Order []int
 }
@@ -120,8 +120,12 @@ func (l dagLocker) RUnlock(es ...int) { l.m.RUnlock(es...) }
 func (l dagLocker) State() string     { return "(DAGMutex)" }
 
 func newLocker(kind string) locker {
-	if kind == "starving" {
+	switch kind {
+	case "starving":
 		return starvingLocker{syncutils.NewStarvingMutex()}
+	case "starving_zero":
+		// "The zero value for a StarvingMutex is an unlocked mutex."
+		return starvingLocker{new(syncutils.StarvingMutex)}
 	}
 	return dagLocker{syncutils.NewDAGMutex[int]()}
 }
